@@ -131,7 +131,49 @@ fn replay() {
     let devs: Vec<Value> = dev_count.iter().map(|(k, (c, ex))| json!({"dev": k, "urls": c, "example": ex})).collect();
     out_line(&json!({"summary": true, "urls": n, "evaluations": evals, "accepted": accepted, "rfc_valid": ideal_ok, "agree_with_rfc": agree_ideal,
         "mismatches": mism, "builders_differ": builders_differ, "line_wrong": line_wrong, "noted": noted, "slow_lookups": slow,
-        "first": first, "devs": devs}));
+        "first": first, "devs": devs, "live": live()}));
+}
+
+/// One real round trip on a port other than 80: a listener on an ephemeral loopback port, Client::get(url).send(), what the
+/// listener received (request line and Host) and what send() returned.
+fn live() -> Value {
+    use std::io::{Read, Write};
+    let l = match std::net::TcpListener::bind("127.0.0.1:0") { Ok(l) => l, Err(e) => return json!({"ran": false, "why": e.to_string()}) };
+    let port = l.local_addr().map(|a| a.port()).unwrap_or(0);
+    let srv = std::thread::spawn(move || -> String {
+        let _ = l.set_nonblocking(false);
+        match l.accept() {
+            Ok((mut s, _)) => {
+                let _ = s.set_read_timeout(Some(std::time::Duration::from_secs(5)));
+                let mut req = vec![];
+                let mut b = [0u8; 1024];
+                while !req.windows(4).any(|w| w == b"\r\n\r\n") {
+                    match s.read(&mut b) { Ok(0) | Err(_) => break, Ok(n) => req.extend(&b[..n]) }
+                }
+                let _ = s.write_all(b"HTTP/1.1 200 OK\r\nContent-Length: 2\r\n\r\nok");
+                String::from_utf8_lossy(&req).to_string()
+            }
+            Err(e) => format!("accept: {}", e),
+        }
+    });
+    let url = format!("http://127.0.0.1:{}/p/q?x=1", port);
+    let u2 = url.clone();
+    let got = std::panic::catch_unwind(move || {
+        let mut c = Client::new();
+        match c.get(&u2) {
+            Err(e) => format!("get: {}", e),
+            Ok(r) => match r.send() { Ok(resp) => format!("{} {}", u16::from(resp.status_code), String::from_utf8_lossy(&resp.body)), Err(e) => format!("send: {}", e) },
+        }
+    }).unwrap_or_else(|_| "panic".into());
+    if !got.starts_with("200") {
+        // nobody connected: unblock the listener thread
+        let _ = std::net::TcpStream::connect(("127.0.0.1", port));
+    }
+    let seen = srv.join().unwrap_or_default();
+    let line = seen.split("\r\n").next().unwrap_or("").to_string();
+    let host = seen.split("\r\n").find(|l| l.to_ascii_lowercase().starts_with("host:")).unwrap_or("").to_string();
+    let ok = got == "200 ok" && line == "GET /p/q?x=1 HTTP/1.1" && host.trim_start_matches(|c: char| c != ':').trim_start_matches(':').trim() == format!("127.0.0.1:{}", port);
+    json!({"ran": true, "ok": ok, "url": url, "returned": got, "request_line": line, "host_line": host})
 }
 
 fn random(n: usize) {
